@@ -843,7 +843,10 @@ class Counts:
             if t["k"] == "switch" and t.get("dty") != "bool":
                 c = self.cls(t["d"])
                 if c and c[0] in ("direct", "acc"):
-                    out.append({"bb": bb, "kind": c[0], "op": "switch", "flip": False, "bound": None, "bound_kind": "match", "switch": t, "line": t.get("line", 0)})
+                    # a match that only singles out 0 is an EOF test (bound 0); otherwise the largest listed
+                    # non-zero value plays the role of the requested length
+                    nz = [int(v) for v in t["vals"] if int(v) != 0]
+                    out.append({"bb": bb, "kind": c[0], "op": "switch", "flip": False, "bound": max(nz) if nz else 0, "bound_kind": "match", "switch": t, "line": t.get("line", 0)})
         return out
 
     def target(self, cmp, n):
